@@ -380,6 +380,7 @@ Definition claim_launchpad_tokens (send_fn : env -> world -> N -> N -> res world
            (e : env) (w : world) : res world :=
   do_ require_stage e (st w) Claim;
   do_ require (negb (claimed (st w) (caller e)));
+  do_ require (negb (blacklisted (st w) (caller e)));
   do x <- settle_tickets e w;
   let (w1, wins) := x in
   send_launchpad_tokens send_fn e w1 (caller e) wins.
